@@ -126,7 +126,7 @@ def track_assign(f, n, fs, facts=None, tracked_types=(_is_bool_ty, _is_enum_ty))
     k = n['k']
     if k == 'DeclStmt':
         for v in n.get('vars', []):
-            if _is_int_ty(v['type']) and facts_get(fs, v['id']) is not None:
+            if (_is_int_ty(v['type']) or v['type'].rstrip().endswith('*')) and facts_get(fs, v['id']) is not None:
                 fs = facts_set(fs, v['id'], None)
             if any(p(v['type']) for p in tracked_types):
                 val = _value_of(f, v['init'], v['type'], facts) if 'init' in v else None
@@ -137,7 +137,8 @@ def track_assign(f, n, fs, facts=None, tracked_types=(_is_bool_ty, _is_enum_ty))
         c = f.ch(n)
         lhs = f.strip(c[0])
         if lhs is not None and lhs['k'] == 'DeclRefExpr' and lhs.get('dk') in ('var', 'parm'):
-            if _is_int_ty(lhs.get('ty')) and facts_get(fs, lhs['id']) is not None:
+            if (_is_int_ty(lhs.get('ty')) or (lhs.get('ty') or '').rstrip().endswith('*')) and \
+                    facts_get(fs, lhs['id']) is not None:
                 fs = facts_set(fs, lhs['id'], None)
             if n.get('op') == '=' and any(p(lhs.get('ty')) for p in tracked_types):
                 fs = facts_set(fs, lhs['id'], _value_of(f, c[1], lhs.get('ty'), facts))
@@ -215,7 +216,7 @@ def cond_shape(f, cond):
     return flip, ('term', term(f, n))
 
 
-def refine(f, blk, idx, fs, assume=None, tracked=None, ints=None):
+def refine(f, blk, idx, fs, assume=None, tracked=None, ints=None, ptrs=None):
     """Refine the fact set along successor idx of blk (None = edge infeasible).
 
     `assume` maps var_id -> required value ('T','F','nonnull','null', enum) for facts the
@@ -231,7 +232,7 @@ def refine(f, blk, idx, fs, assume=None, tracked=None, ints=None):
     taken_true = (idx == 0)
     truth = taken_true != flip  # truth value of the un-negated shape on this edge
     kind = shape[0]
-    if tracked is not None and kind in ('truth', 'eq', 'icmp') and not tracked((shape[-1] or '')):
+    if tracked is not None and kind in ('truth', 'eq') and not tracked((shape[-1] or '')):
         if not (assume and shape[1] in assume):
             return fs
     if kind == 'truth':
@@ -251,7 +252,9 @@ def refine(f, blk, idx, fs, assume=None, tracked=None, ints=None):
         cur = facts_get(fs, var)
         if cur in ('nonnull', 'null') and cur != want:
             return None
-        return fs  # null-ness is only tracked through `assume`
+        if ptrs and (ptrs is True or vname(var) in ptrs):
+            return facts_set(fs, var, want)
+        return fs  # null-ness is tracked only through `assume` and for the pointers a rule names
     if kind == 'icmp':
         var, op, c = shape[1], shape[2], shape[3]
         if not ints or (ints is not True and vname(var) not in ints):
@@ -548,3 +551,23 @@ def field_writes(f):
                 if m:
                     out.append((m, n, n['cn']))
     return out
+
+
+def assigned_var(f, n):
+    """The variable that receives the value of expression n (declaration, built-in or class assignment)."""
+    p = f.parent(n)
+    if p is None:
+        return None
+    if p['k'] == 'ConditionalOperator':
+        p = f.parent(p)
+        if p is None:
+            return None
+    if p['k'] == 'DeclStmt':
+        return p['vars'][0]['id']
+    if p['k'] == 'BinaryOperator' and p.get('op') == '=':
+        return root_var(f, f.ch(p)[0])
+    if p['k'] == 'CXXOperatorCallExpr' and p.get('cn') == 'operator=' and p.get('args'):
+        a0 = f.strip(f.node(p['args'][0]), casts=True)
+        if a0 is not None and a0 is not f.strip(n, casts=True) and a0['k'] == 'DeclRefExpr':
+            return a0.get('id')
+    return None
